@@ -71,6 +71,37 @@ def signature(src: str, r):
     return None
 
 
+def valueless_signature(src: str, probs):
+    """listed finding valueless_expression_statement: the source has an expression statement without any effect (`RsV + 1;`) and every
+    problem is an operand or operation of such a statement left unused"""
+    from . import cparse as CP
+
+    if not src or not probs:
+        return None
+    try:
+        names, kinds = CP.valueless_statements(CP.parse(src))
+    except CP.ParseError:
+        return None
+    if not names and not kinds:
+        return None
+    for pr in probs:
+        m = re.search(r"pure (\w+) initialised but never used", pr)
+        if not m:
+            return None
+        x = m.group(1)
+        mo = re.match(r"op_([A-Z]+)_\d+$", x)
+        if x in names:
+            continue
+        if mo:
+            k = {"SHIFTR": "RSHIFT", "SHIFTL": "LSHIFT"}.get(mo.group(1), mo.group(1))
+            if kinds[k] <= 0:
+                return None
+            kinds[k] -= 1
+        elif not (re.match(r"(cast|ml|cond|ite_cast|const)_\w+_\d+$", x) and sum(kinds.values()) > 0):
+            return None
+    return "valueless_expression_statement"
+
+
 def output_signature(src: str, probs):
     """listed finding dead_arm_operand: the source has an unevaluated context (a ?: with a constant condition, a sizeof) and
     every problem is one the finding describes:
@@ -86,6 +117,7 @@ def output_signature(src: str, probs):
         ast = CP.parse(src)
         names = CP.dead_arm_names(ast)
         live = CP.live_operand_names(ast)
+        kinds = CP.dead_nested_kinds(ast)
     except CP.ParseError:
         return None
     if not names:
@@ -99,7 +131,19 @@ def output_signature(src: str, probs):
             if not (x in names and x in live):
                 return None
         elif kind == "pure" and ("never used" in pr or "only used through DUP" in pr):
-            if not (x in names or re.match(r"(op|cast|ml|cond|ite_cast|const)_\w+_\d+$", x)):
+            mo = re.match(r"op_([A-Z]+)_\d+$", x)
+            if x in names:
+                pass
+            elif mo:
+                # an operation left behind must be one that hangs BELOW the root of a dead arm (the root itself is removed)
+                k = {"SHIFTR": "RSHIFT", "SHIFTL": "LSHIFT"}.get(mo.group(1), mo.group(1))
+                if kinds[k] <= 0:
+                    return None
+                kinds[k] -= 1
+            elif re.match(r"(cast|ml|cond|ite_cast|const)_\w+_\d+$", x):
+                if sum(kinds.values()) <= 0:
+                    return None
+            else:
                 return None
         elif kind == "pure" and "consumed" in pr:
             if x not in names or len(x) != 1:
